@@ -48,6 +48,12 @@ def known_matcher(pid):
         # with no session selected, the sessioned types address the union of all sessions (same root cause: "<session>." is just a key prefix)
         if 'kv-dot-ambiguity' in ks and inv == 'C11_NoCrossList' and t > 8 and s == '':
             return ks['kv-dot-ambiguity']
+        # a listing under session s shows an entry that another (session, key) split wrote under the same stored name
+        # "<s>.<k>": the writer had no session (its key began with "<s>.") or a session that is a dot-prefix of that name
+        if 'kv-dot-ambiguity' in ks and inv == 'C11_NoCrossList' and t > 8 and s != '':
+            foreign = [x for x in ev['list'] if x.get('pk') and (x['pt'] != t or dec(x['ps']) != s)]
+            if foreign and all(x['pt'] == t and (dec(x['ps']) == '' or (s + '.' + dec(x['k'])).startswith(dec(x['ps']) + '.')) for x in foreign):
+                return ks['kv-dot-ambiguity']
         if ev['backend'] in ('fs', 'fsbin'):
             if 'fs-path-cleaning' in ks and ('/' in name(mine) or any('/' in name(p) for p in others)):
                 return ks['fs-path-cleaning']
